@@ -110,6 +110,7 @@ pub struct Exec {
     pub hostile_front: i64,
     pub hostile_count: i32,
     pub ingress: Option<Ingress>,
+    pub hostile_run: bool,
 }
 
 fn outputs_by_writer(sent: &[rustdds::verif::net::Sent], captured: &mut Vec<Vec<u8>>) -> Vec<(u8, Vec<Value>, Vec<Value>)> {
@@ -206,7 +207,7 @@ impl Exec {
     pub fn new(reliable: bool) -> Self {
         let rig = ReaderRig::new(&[ReaderCfg { reliable, history_depth: None, max_samples: Some(1_000_000) }]);
         let reader_eid = rig.slots[0].entity_id;
-        Exec { rig, reliable, reader_eid, captured: vec![], hostile_front: 10, hostile_count: 1000, ingress: None }
+        Exec { rig, reliable, reader_eid, captured: vec![], hostile_front: 10, hostile_count: 1000, ingress: None, hostile_run: false }
     }
 
     fn inject(&mut self, w: u8, subs: &[Sub]) -> Vec<(u8, Vec<Value>, Vec<Value>)> {
@@ -309,6 +310,7 @@ impl Exec {
                 // byinst: the application accesses by instance (take_instance for every key in turn, everything available);
                 // a reliable reader only, the union is what a plain take would have returned
                 let byinst = *byinst && self.reliable;
+                let hostile_run = self.hostile_run;
                 let res: Result<Vec<rustdds::with_key::DataSample<rustdds::verif::VSample>>, String> = if byinst {
                     let mut all = vec![];
                     let mut err = None;
@@ -330,8 +332,9 @@ impl Exec {
                         let got: Vec<Value> = v
                             .iter()
                             .filter(|ds| {
+                                // what the hostile peer's own "samples" look like is not judged (runs with a hostile step only)
                                 let g = rustdds::verif::reader_rig::guid_to_bytes(ds.sample_info().writer_guid());
-                                writer_of_prefix(&g[0..12]) != HOSTILE_W
+                                !hostile_run || writer_of_prefix(&g[0..12]) != HOSTILE_W
                             })
                             .map(|ds| {
                                 let info = ds.sample_info();
@@ -380,6 +383,7 @@ impl Exec {
 
 pub fn run_one(run_no: usize, spec: &RunSpec, out: &mut Vec<Value>) -> Vec<Vec<u8>> {
     let mut ex = if spec.via_socket { Exec::with_socket(spec.reliable, run_no) } else { Exec::new(spec.reliable) };
+    ex.hostile_run = spec.acts.iter().any(|a| matches!(a, RAct::Hostile { .. }));
     out.push(json!({"ev":"Reset","run":run_no,"reliable":spec.reliable}));
     for a in &spec.acts {
         ex.step(a, out);
